@@ -71,13 +71,9 @@ pub fn judge_line(
                     ),
                 })
             }
-            Some(t) => {
-                if e.title != t {
-                    return Some(Violation {
-                        class: "c01:wrong-error".into(),
-                        detail: format!("{where_}: expected error `{t}`, got `{}`", e.title),
-                    });
-                }
+            Some(_) => {
+                // Any structured error will do: the statement is about values, not about the
+                // wording (or identity) of error messages, which a refactoring may change.
             }
         },
     }
